@@ -15,12 +15,17 @@ transport, ConnectionError, ConnectTimeout, Response, models.CaseInsensitiveDict
 Patched names: `time` in fail_safe (virtual clock, ticks of 1/8 s), `gethostbyname` in
 traffic_filter (DNS table of the case; entries `real:`/`unicode` call the real
 socket.gethostbyname, `ip:` returns the address, `gaierror`/absent raise socket.gaierror exactly
-as the real function was seen to do for unresolvable names in this sandbox).
+as the real function was seen to do for unresolvable names in this sandbox; INJECTED resolver
+faults: `oserror:emfile` / `oserror:enomem` raise a plain OSError with that errno - what
+gethostbyname does when getaddrinfo reports EAI_SYSTEM, e.g. out of file descriptors -,
+`herror` raises socket.herror, `timeout` raises socket.timeout; all are OSError subclasses).
+Ops `call` go through the real requests hook; ops `decide` ask TrafficFilter.is_allowed alone.
 
 CLI: -seed N -tier quick|thorough -out DIR -budget K [-replay FILE]
 Writes DIR/ops.txt, DIR/impl.txt, DIR/stats.json (same contract as harness/go/internal/proto).
 """
 import ast
+import errno
 import importlib.util
 import json
 import logging
@@ -309,6 +314,14 @@ def fake_gethostbyname(host):
         raise socket.gaierror(-2, "Name or service not known")
     if o.startswith("ip:"):
         return o[3:]
+    if o == "oserror:emfile":
+        raise OSError(errno.EMFILE, "Too many open files")
+    if o == "oserror:enomem":
+        raise OSError(errno.ENOMEM, "Cannot allocate memory")
+    if o == "herror":
+        raise socket.herror(1, "Unknown host")
+    if o == "timeout":
+        raise socket.timeout("timed out")
     # `real:<ip>` and `unicode`: whatever the real resolver does (no network needed for these)
     return REAL_GETHOSTBYNAME(host)
 
@@ -479,7 +492,7 @@ def exec_case(ops, out):
                     fmt_list(ic.tf._allow_list), fmt_list(ic.tf._block_list)))
             elif k == "dns" and len(w) == 3:
                 r = w[2]
-                okres = r in ("gaierror", "unicode") or ((r.startswith("ip:") or r.startswith("real:")) and valid_quad(r.split(":", 1)[1]))
+                okres = r in ("gaierror", "unicode", "oserror:emfile", "oserror:enomem", "herror", "timeout") or ((r.startswith("ip:") or r.startswith("real:")) and valid_quad(r.split(":", 1)[1]))
                 if ic is None or called or not okres:
                     outs.append("bad-op")
                     continue
@@ -513,7 +526,7 @@ def exec_case(ops, out):
                     res = "resp:" + resp.leg
                 except Exception as e:  # an exception reaching the application is an observable answer
                     res = "raise:" + type(e).__name__
-                    if type(e).__name__ in ("AddressValueError", "UnicodeError"):
+                    if not isinstance(e, (AppGw, AppDirect)):
                         raised = True
                 outs.append("sent=%s res=%s cnt=%d ok=%d" % (",".join(s.legs) or "-", res, ic.fs._error_counter,
                                                              int(ic.fs._state_ok)))
@@ -523,6 +536,23 @@ def exec_case(ops, out):
                     excluded = True
                 out.count("gw-" + gw if "gw" in s.legs else "not-routed")
                 out.count("result-" + res)
+            elif k == "decide":
+                host, hd = kv(w, "host"), kv(w, "hdr")
+                if ic is None or None in (host, hd):
+                    outs.append("bad-op")
+                    continue
+                try:
+                    headers = headers_of(hd)
+                except ValueError:
+                    outs.append("bad-op")
+                    continue
+                called = True
+                try:
+                    outs.append("allowed=%d" % int(bool(ic.tf.is_allowed(dec(host), headers))))
+                except Exception as e:  # the decision raised: an observable answer
+                    outs.append("raised:" + type(e).__name__)
+                    raised = True
+                out.count("decide-" + outs[-1].split(":")[0])
             elif k == "probe" and len(w) == 2:
                 tf = ic.tf if ic is not None else REAL.traffic_filter.TrafficFilter(None, None, REAL.logger)
                 h = dec(w[1])
@@ -557,6 +587,8 @@ T0 = 1_700_000_000 * TICKS_PER_SEC
 PUBLIC = "api.example.test"
 PUBLIC_IP = "93.184.216.34"
 PRIVATE_LIT = "10.1.2.3"
+FAULTY = "emfile.example.test"
+FAULTY2 = "slow.example.test"
 
 BOUNDARY_IPS = [
     "0.0.0.0", "0.0.0.1", "1.0.0.1", "9.255.255.255", "10.0.0.0", "10.0.0.1", "10.255.255.255", "11.0.0.0",
@@ -575,6 +607,7 @@ NOT_IPV6 = ["1:2:3:4:5:6:7:8:9", ":1", "1:", ":::", "1::2::3", "12345::", "g::1"
 NUMERIC_NAMES = {"127.1": "127.0.0.1", "2130706433": "127.0.0.1", "0x7f.1": "127.0.0.1", "010.0.0.1": "8.0.0.1",
                  "10.1": "10.0.0.1", "0": "0.0.0.0", "192.168.257": "192.168.1.1", "1.2.3": "1.2.0.3", "0300.0250.1": "192.168.0.1"}
 UNRESOLVABLE = ["1.2.3.4.5", "256.1.1.1", "nosuch.example.test", "None", "a b", "1.2.3.4."]
+RESOLVER_FAULTS = ["oserror:emfile", "oserror:enomem", "herror", "timeout"]
 UNICODE_NAMES = ["a" * 64 + ".example.test", "a..b", ".example.test", "x." + "b" * 70]
 NAMES = ["api.example.test", "internal.example.test", "db", "localhost", "svc-1.example.test", "a-b", "ab", "x_y.example.test",
          "a" * 63 + ".example.test", "EXAMPLE.test", "10.example.test", "127.0.0.1.nip.test"]
@@ -588,7 +621,8 @@ def q(name, ops):
 
 def seq_case(cid, maxe, cool, events, extra_cfg=""):
     """events: list of event letters -> op lines"""
-    ops = ["cfg max=%d cool=%d block=%%n allow=%%n t0=%d" % (maxe, cool, T0), "dns %s ip:%s" % (PUBLIC, PUBLIC_IP)]
+    ops = ["cfg max=%d cool=%d block=%%n allow=%%n t0=%d" % (maxe, cool, T0), "dns %s ip:%s" % (PUBLIC, PUBLIC_IP),
+           "dns %s oserror:emfile" % FAULTY, "dns %s timeout" % FAULTY2]
     eff = cool if cool else 10
     for e in events:
         if e == "S":
@@ -615,6 +649,12 @@ def seq_case(cid, maxe, cool, events, extra_cfg=""):
             ops.append("call host=%s hdr=- gw=connsub direct=ok" % PUBLIC)
         elif e == "6":     # decision raises (F19a)
             ops.append("call host=::1 hdr=- gw=ok direct=ok")
+        elif e == "R":     # resolver system error while classifying the destination
+            ops.append("call host=%s hdr=- gw=ok direct=ok" % FAULTY)
+        elif e == "r":
+            ops.append("call host=%s hdr=other gw=errhdr direct=exc" % FAULTY2)
+        elif e == "D":
+            ops.append("decide host=%s hdr=-" % FAULTY)
         elif e == "O":     # header override on a private destination
             ops.append("call host=%s hdr=v:true gw=errhdr direct=ok" % PRIVATE_LIT)
         elif e == "N":     # header override refusing a public destination
@@ -659,11 +699,15 @@ def host_case(r, cid):
                 dns[n] = "unicode"
             elif r.chance(50):
                 dns[n] = "gaierror"
+            elif r.chance(50):
+                dns[n] = r.pick(RESOLVER_FAULTS)
         else:
             n = r.pick(NAMES)
             pool.append(n)
-            if r.chance(85):
+            if r.chance(80):
                 dns[n] = "ip:" + (r.pick(BOUNDARY_IPS) if r.chance(80) else PUBLIC_IP)
+            elif r.chance(60):
+                dns[n] = r.pick(RESOLVER_FAULTS + ["gaierror"])
     mode = r.intn(10)
     allow = block = "%n"
     if mode < 4:
@@ -679,8 +723,11 @@ def host_case(r, cid):
         ops.append("dns %s %s" % (enc(h), dns[h]))
     for _ in range(r.range(2, 12)):
         h = r.pick(pool) if r.chance(92) else r.pick(BOUNDARY_IPS + NAMES)
-        ops.append("call host=%s hdr=%s gw=%s direct=%s" % (enc(h), r.pick(HDRS), r.pick(["ok", "ok", "ok", "errhdr", "connerr", "appexc"]),
-                                                              r.pick(["ok", "ok", "ok", "exc"])))
+        if r.chance(25):   # the filter alone (shares the cache with the calls)
+            ops.append("decide host=%s hdr=%s" % (enc(h), r.pick(HDRS)))
+        else:
+            ops.append("call host=%s hdr=%s gw=%s direct=%s" % (enc(h), r.pick(HDRS), r.pick(["ok", "ok", "ok", "errhdr", "connerr", "appexc"]),
+                                                                  r.pick(["ok", "ok", "ok", "exc"])))
         if r.chance(10):
             ops.append("adv d=%d" % r.pick([1, 7, 8, 9, 40, 80]))
     return cid, ops
@@ -691,7 +738,7 @@ def rand_seq_case(r, cid):
     cool = r.pick([1, 2, 3, 4, 5, 1, 2, 3, 4, 5, 0])
     n = r.range(1, 12)
     # failure-heavy so that the breaker really opens, with advances around the boundary
-    letters = "SEEHHCABTTtUXY6ON"
+    letters = "SEEHHCABTTtUXY6ONRrD"
     ev = [letters[r.intn(len(letters))] for _ in range(n)]
     return seq_case(cid, maxe, cool, ev)
 
